@@ -11,7 +11,7 @@ variant agrees with the View variant.  E-RT (bounded): make_hashable preserves e
 import itertools
 
 import z3
-from amaranth import Signal, Value
+from amaranth import Shape, Signal, Value, signed
 from amaranth.lib import data
 
 from transactron.utils import data_repr as DR
@@ -98,7 +98,24 @@ LAYOUTS = [
     data.ArrayLayout(data.ArrayLayout(2, 2), 3),
     data.StructLayout({"only": data.StructLayout({"x": 3})}),
     data.StructLayout({"a": data.StructLayout({"x": 1, "y": 2}), "b": data.StructLayout({"x": 2, "y": 1}), "c": data.StructLayout({"x": 3, "y": 3})}),
+    # signed leaves (a transposition that keeps only the width of a leaf changes how negative values read back)
+    data.ArrayLayout(data.ArrayLayout(signed(2), 2), 2),
+    data.StructLayout({"a": data.StructLayout({"x": signed(2), "y": 1}), "b": data.StructLayout({"x": signed(2), "y": 1})}),
 ]
+
+
+def deep_shape_eq(a, b):
+    """structural equality of two shapes down to the leaves, including signedness (Amaranth's Layout.__eq__ compares
+    nested fields by bit-level shape only)"""
+    if isinstance(a, data.StructLayout) and isinstance(b, data.StructLayout):
+        ka, kb = list(a.members), list(b.members)
+        return ka == kb and all(deep_shape_eq(a.members[k], b.members[k]) for k in ka)
+    if isinstance(a, data.ArrayLayout) and isinstance(b, data.ArrayLayout):
+        return a.length == b.length and deep_shape_eq(a.elem_shape, b.elem_shape)
+    if isinstance(a, data.Layout) or isinstance(b, data.Layout):
+        return False
+    sa, sb = Shape.cast(a), Shape.cast(b)
+    return sa.width == sb.width and sa.signed == sb.signed
 
 
 def run(cfg, ctx):
@@ -168,6 +185,9 @@ def run(cfg, ctx):
         ctx.prove("transpose.swaps_levels", z3.And(*fs), hw=hw)
         ctx.prove("transpose.result_layout", z3.BoolVal(tv["t"].shape() == T and T.size == L.size))
         ctx.prove("transpose_layout.involution", z3.BoolVal(AD.transpose_layout(AD.transpose_layout(L)) == L))
+        ctx.prove("transpose_layout.involution_down_to_leaf_shapes", z3.BoolVal(deep_shape_eq(AD.transpose_layout(AD.transpose_layout(L)), L)))
+        ctx.prove("transpose_layout.leaf_shapes_preserved", z3.BoolVal(all(deep_shape_eq(T[ik].shape[ok].shape, L[ok].shape[ik].shape) for ok in o_keys for ik in i_keys)))
+        # (bit-level equality of every leaf plus equal leaf shapes gives numeric equality, also for negative values)
         # Const variant agrees with the View variant on enumerated constants
         n = L.size
         vals = range(1 << n) if n <= 8 else [0, (1 << n) - 1] + [(0x9E3779B97F4A7C15 * k) & ((1 << n) - 1) for k in range(1, 200)]
